@@ -165,8 +165,28 @@ def check(prop, tier, seed):
     import vfreplay
     from concurrent.futures import ThreadPoolExecutor
     prepared = []
+    small_cache = {}
+
+    def small_witness(j, ob):
+        """second CBMC run of the job with the harness restricted to a small window (-DVF_SMALL), so that
+        the witness variables capture the complete input of the counterexample"""
+        if j.name not in small_cache:
+            cpath, info = groups[j.group]
+            try:
+                small_cache[j.name] = vfcore.run_job(j, cpath, info, tier, defines=['-DVF_SMALL'], subdir='.small', witness_mode=True)
+            except Exception:
+                small_cache[j.name] = None
+        r2 = small_cache[j.name]
+        if not r2 or r2.get('status') != 'done':
+            return None
+        for o2 in r2['obligations']:
+            if o2['name'] == ob['name'] and o2['status'] == 'FAILURE' and o2.get('trace'):
+                return o2
+        return None
     for j, r, ob, tag in violations:
-        path, rec = write_replay(prop, j, r, ob, tag, tier)
+        ob2 = small_witness(j, ob) if j.replay else None
+        path, rec = write_replay(prop, j, r, ob2 or ob, tag, tier)
+        rec['witness_from_small_window_rerun'] = ob2 is not None
         prepared.append((j, r, ob, tag, path, rec))
 
     def do_replay(item):
